@@ -395,6 +395,9 @@ func plan(cfgIdx int, img *image, rng *rand.Rand, budget int) []*job {
 		}
 		clampVLen(img, j)
 	}
+	// one DIRECTED job per known finding, never sampled away and run first, so that every listed
+	// known finding is replayed on every run (a job that stops reproducing simply reports nothing)
+	jobs = append(directed(cfgIdx, img), jobs...)
 	// one probe per image of what a huge vLen costs (run on its own, after the parallel batch)
 	if cfgIdx == 0 || cfgIdx == 2 {
 		t := img.txs[1]
@@ -485,5 +488,48 @@ func planCompressed(cfgIdx int, img *image, rng *rand.Rand) []*job {
 				patches: []patch{{vl, int64(p), d}}})
 		}
 	}
+	return jobs
+}
+
+// directed: the smallest corruption that reproduces each entry of known_findings/C09.json.
+func directed(cfgIdx int, img *image) []*job {
+	var jobs []*job
+	mk := func(target int, class, kind string, ps ...patch) {
+		jobs = append(jobs, &job{cfgIdx: cfgIdx, target: target, class: class, kind: "directed-" + kind, patches: ps})
+	}
+	if img.cfg.compression != 0 {
+		// exported-as-truncated-compressed: the compressed block of the single value of tx 1 (the first
+		// block of val_0) is damaged right after its 4-byte length prefix
+		if len(img.vlogs) > 0 && len(img.vlogs[0]) >= 8 && len(img.txs[0].entries) == 1 {
+			mk(0, "value.compressed", "damaged-block", patch{0, 4, []byte{0xff, 0xff, 0xff, 0xff}})
+		}
+		return jobs
+	}
+	if img.cfg.embedded || len(img.txs) < 3 {
+		return jobs
+	}
+	t := img.txs[1] // tx 2: not the last one, all its values are non-empty
+	fl, fo := t.fieldNamed("e0.vLen"), t.fieldNamed("e0.vOff")
+	e0 := &t.entries[0]
+	// vLen-vOff-only: vLen of entry 0 one byte longer
+	mk(1, "entry.vLen", "vlen+1", patch{-1, t.off + int64(fl.lo), beBytes(uint64(e0.vLen+1), 4)})
+	// vLen-0-empty-value
+	mk(1, "entry.vLen", "vlen-zero", patch{-1, t.off + int64(fl.lo), beBytes(0, 4)})
+	// consistent-rewrite: another key of the same length, Eh and Alh recomputed
+	es := make([]entryInfo, len(t.entries))
+	copy(es, t.entries)
+	es[0].key = clone(es[0].key)
+	es[0].key[len(es[0].key)-1] ^= 0x20
+	if nrec, _, err := serialize(t.hdr, es); err == nil && len(nrec) == len(t.rec) {
+		mk(1, "rewrite", "key", patch{-1, t.off, nrec})
+	}
+	// exported-as-truncated-no-vlog: the vLogID byte of every entry of tx 2 set to 0
+	var ps []patch
+	for i := range t.entries {
+		f := t.fieldNamed(fmt.Sprintf("e%d.vOff", i))
+		ps = append(ps, patch{-1, t.off + int64(f.lo), []byte{0}})
+	}
+	_ = fo
+	mk(1, "entry.vOff", "vlog-id-0", ps...)
 	return jobs
 }
